@@ -5,6 +5,7 @@ package revision
 import (
 	"encoding/json"
 	"sync"
+	"time"
 
 	"github.com/kubewharf/kubebrain/pkg/server/service/leader"
 	"github.com/kubewharf/kubebrain/pkg/zzmodel"
@@ -71,17 +72,21 @@ func VerifC18Sync() {
 // VerifC18Concurrent: two follower reads while the leader's revision advances: a successful read
 // uses a revision >= the leader's committed revision at the moment the read began.
 func VerifC18Concurrent() {
-	var mu sync.Mutex
+	// the leader's revision is read and written only inside gate passages (zzverif.AtGate), so the
+	// recorded order of gates fixes every value a native replay sees
+	// the forced native schedule holds the leader's answer at gates; a loaded machine must not turn
+	// that into a client timeout (the model of the HTTP client has no timeout either)
+	syncRevTimeout = 30 * time.Second
 	leaderRev := uint64(10)
 	asked := make([]int, 2)
 	cur := -1
 	zzverif.SetHTTPHandler(func(url string) zzverif.HTTPResult {
-		zzverif.YieldAt("leader.sample")
-		mu.Lock()
-		r := leaderRev
-		mu.Unlock()
+		var r uint64
+		zzverif.AtGate("leader.sample", func() { r = leaderRev })
 		body, _ := json.Marshal(LeaderRevision{Revision: r})
 		zzverif.YieldAt("leader.answer")
+		// the answer can be on its way for a while (a reader that joins meanwhile shares it)
+		zzverif.YieldAt("leader.answered")
 		return zzverif.HTTPResult{Status: 200, Body: body}
 	})
 	_ = cur
@@ -99,10 +104,7 @@ func VerifC18Concurrent() {
 	for i := 0; i < 2; i++ {
 		i := i
 		zzverif.Go("r"+string(rune('0'+i)), func() {
-			zzverif.YieldAt("begin")
-			mu.Lock()
-			begins[i] = leaderRev
-			mu.Unlock()
+			zzverif.AtGate("begin", func() { begins[i] = leaderRev })
 			errs[i] = s.SyncReadRevision()
 			used[i] = be.last()
 			asked[i] = 1
@@ -111,10 +113,7 @@ func VerifC18Concurrent() {
 	}
 	zzverif.Go("leader", func() {
 		// the leader commits a write at some point
-		zzverif.YieldAt("leader.commit")
-		mu.Lock()
-		leaderRev++
-		mu.Unlock()
+		zzverif.AtGate("leader.commit", func() { leaderRev++ })
 		wg.Done()
 	})
 	wg.Wait()
